@@ -771,7 +771,16 @@ def _scale_invariance(ctx, out, sub_ok, general, owner, unit_mapper, k):
     row_ok[owner[~sub_ok]] = False
     unit = np.asarray(unit_mapper.mapping_matrix, dtype=float)
     cls = "small" if k < 0 else "large"
-    ctx.close(mm[row_ok], unit[row_ok], "delaunay/scale-invariance/%s-scale" % cls, atol=TOL_SUM,
+    # the library's weight arithmetic is not bit-for-bit scale covariant (scipy / qhull work on internally re-scaled
+    # coordinates), so the two matrices agree to the conditioning of barycentric weights, not to 1e-12 flat:
+    # same bound as the reference comparison, 32 eps max|coordinate|^2 / (2 smallest simplex area)
+    tri = unit_mapper.source_plane_mesh_grid.delaunay
+    pts = np.asarray(tri.points, dtype=float)
+    sp = pts[np.asarray(tri.simplices)]
+    area2 = np.abs((sp[:, 1, 0] - sp[:, 0, 0]) * (sp[:, 2, 1] - sp[:, 0, 1]) - (sp[:, 1, 1] - sp[:, 0, 1]) * (sp[:, 2, 0] - sp[:, 0, 0]))
+    cmax2 = max(float(np.abs(pts).max()), float(np.abs(np.asarray(unit_mapper.source_plane_data_grid, dtype=float)).max())) ** 2
+    kappa = cmax2 / max(float(area2[area2 > 0].min()) if (area2 > 0).any() else 1e-300, 1e-300)
+    ctx.close(mm[row_ok], unit[row_ok], "delaunay/scale-invariance/%s-scale" % cls, atol=TOL_SUM + 32.0 * ref.EPS * kappa,
               what="mapping_matrix of the plane times 2**%d vs the plane at unit scale" % k)
     ps, pu = unit_mapper.pix_sub_weights, None
     ctx.equal(np.asarray(out[2])[sub_ok], np.asarray(ps.sizes)[sub_ok], "delaunay/scale-invariance/%s-scale" % cls,
